@@ -219,25 +219,21 @@ Hypothesis Hne : n <> [].
 Hypothesis Hnz : seval d <> 0.
 Let N := seval n. Let D := seval d.
 
-(* both variants: the quotient is the floor; the remainder is the adjusted magnitude negated by the
-   chosen sign mask *)
-Lemma floor_gen_spec (fix_sign : bool) :
-  let r0 := Z.abs N mod Z.abs D in
-  let opp := xorb (N <? 0) (D <? 0) in
-  let r' := if negb (r0 =? 0) && opp then Z.abs D - r0 else r0 in
-  int_checked_div_rem_floor_gen fix_sign n d =
+(* quotient = floor(n / d); remainder = n mod d (sign of the divisor) *)
+Lemma int_checked_div_rem_floor_spec :
+  int_checked_div_rem_floor n d =
     (if isp_fits (length n) (N / D) then Some (to_limbs_s (length n) (N / D)) else None,
-     to_limbs_s (length d) (if (if fix_sign then D <? 0 else opp) then - r' else r')).
+     to_limbs_s (length d) (N mod D)).
 Proof.
-  intros r0 opp r'. unfold int_checked_div_rem_floor_gen. rewrite !int_abs_sign_spec by assumption.
+  unfold int_checked_div_rem_floor. rewrite !int_abs_sign_spec by assumption.
   unfold ux_div_rem. rewrite !length_to_limbs, !eval_abs by assumption. fold N D.
-  destruct (div_mag_bounds n d Hnz) as [Hq Hr]. fold N D in Hq, Hr. fold r0 in Hr.
+  destruct (div_mag_bounds n d Hnz) as [Hq Hr]. fold N D in Hq, Hr.
   pose proof (abs_lt_Bn n Hn) as Bn'. pose proof (abs_lt_Bn d Hd) as Bd'. fold N in Bn'. fold D in Bd'.
   destruct (Bn_half _ (nonempty_len n Hne)) as [HM HH]. pose proof (half_ge n Hne) as Hh2.
   pose proof (seval_range n Hn) as Rn. fold N in Rn. word_facts.
-  set (q0 := Z.abs N / Z.abs D) in *.
-  rewrite cc_xor_bool. fold opp.
-  rewrite ux_is_nonzero_spec by apply wf_to_limbs. rewrite eval_to_limbs, (Z.mod_small r0) by lia. fold r0.
+  set (q0 := Z.abs N / Z.abs D) in *. set (r0 := Z.abs N mod Z.abs D) in *.
+  rewrite cc_xor_bool. set (opp := xorb (N <? 0) (D <? 0)).
+  rewrite ux_is_nonzero_spec by apply wf_to_limbs. rewrite eval_to_limbs, (Z.mod_small r0) by lia.
   rewrite cc_and_bool.
   rewrite add_one_to_limbs by (try apply nonempty_len; try assumption; lia).
   rewrite select_to_limbs.
@@ -248,46 +244,19 @@ Proof.
   assert (Hq' : 0 <= (if m then q0 + 1 else q0) < Bn (length n)) by (destruct m; lia).
   assert (Hr' : 0 <= (if m then Z.abs D - r0 else r0) < Bn (length d)) by (destruct m; lia).
   rewrite new_from_abs_sign_to_limbs by assumption.
-  assert (Hc : choice_of_bool (if fix_sign then D <? 0 else opp) =
-               (if fix_sign then choice_of_bool (D <? 0) else choice_of_bool opp)) by (destruct fix_sign; reflexivity).
-  rewrite <- Hc, neg_if_to_limbs by assumption.
-  destruct (floor_qr N D Hnz) as [Eq _]. cbv zeta in Eq. fold q0 r0 opp m in Eq. rewrite Eq.
+  rewrite neg_if_to_limbs by assumption.
+  destruct (floor_qr N D Hnz) as [Eq Er]. cbv zeta in Eq, Er. fold q0 r0 opp m in Eq, Er. rewrite Eq, Er.
   reflexivity.
 Qed.
 
-(* the variant that re-signs the remainder with the sign of the divisor is the floor division *)
-Lemma floor_fixed_spec :
-  int_checked_div_rem_floor_gen true n d =
-    (if isp_fits (length n) (N / D) then Some (to_limbs_s (length n) (N / D)) else None,
-     to_limbs_s (length d) (N mod D)).
-Proof.
-  pose proof (floor_gen_spec true) as E. cbv zeta in E. rewrite E.
-  destruct (floor_qr N D Hnz) as [_ Er]. cbv zeta in Er. rewrite Er. reflexivity.
-Qed.
-
-(* the code as it stands: quotient = floor *)
 Lemma floor_quotient_spec :
   fst (int_checked_div_rem_floor n d) =
     if isp_fits (length n) (N / D) then Some (to_limbs_s (length n) (N / D)) else None.
-Proof. unfold int_checked_div_rem_floor. pose proof (floor_gen_spec false) as E. cbv zeta in E. rewrite E. reflexivity. Qed.
+Proof. rewrite int_checked_div_rem_floor_spec. reflexivity. Qed.
 
-(* ... and its remainder is right whenever the dividend is non-negative or the division is exact *)
-Lemma floor_remainder_partial : 0 <= N \/ N mod D = 0 ->
+Lemma floor_remainder_spec :
   snd (int_checked_div_rem_floor n d) = to_limbs_s (length d) (N mod D).
-Proof.
-  intros Hcase. unfold int_checked_div_rem_floor. pose proof (floor_gen_spec false) as E. cbv zeta in E. rewrite E.
-  cbn [snd]. f_equal.
-  destruct (floor_qr N D Hnz) as [_ Er]. cbv zeta in Er. rewrite <- Er.
-  set (r0 := Z.abs N mod Z.abs D) in *.
-  assert (Hr0 : N mod D = 0 -> r0 = 0).
-  { intros Hz. rewrite <- Er in Hz. unfold r0 in *.
-    pose proof (Z.mod_pos_bound (Z.abs N) (Z.abs D) ltac:(lia)).
-    destruct (Z.abs N mod Z.abs D =? 0) eqn:E0; [apply Z.eqb_eq in E0; assumption|].
-    cbn [negb andb] in Hz. destruct (xorb (N <? 0) (D <? 0)), (D <? 0); lia. }
-  destruct Hcase as [Hpos|Hex].
-  - replace (N <? 0) with false by (symmetry; apply Z.ltb_ge; assumption). destruct (D <? 0); reflexivity.
-  - rewrite (Hr0 Hex). cbn [Z.eqb negb andb]. destruct (xorb (N <? 0) (D <? 0)), (D <? 0); reflexivity.
-Qed.
+Proof. rewrite int_checked_div_rem_floor_spec. reflexivity. Qed.
 
 Lemma int_checked_div_floor_spec :
   int_checked_div_floor n d =
@@ -452,34 +421,11 @@ Lemma normalized_rem_range : 0 <= N mod D < D.
 Proof. destruct umag_bounds as (HD & _). apply Z.mod_pos_bound. assumption. Qed.
 End ByUint.
 
-(* ------------------------------------------------------------------ refutations (genuine defects of /repo) *)
+(* ------------------------------------------------------------------ refutation (open defect of /repo) *)
 Lemma wf1 x : 0 <= x < 2 ^ 64 -> wf [x].
 Proof. intros H. apply wf_cons. split; [unfold is_word; rewrite B_val; assumption | apply wf_nil]. Qed.
 Lemma wf2 x y : 0 <= x < 2 ^ 64 -> 0 <= y < 2 ^ 64 -> wf [x; y].
 Proof. intros Hx Hy. apply wf_cons. split; [unfold is_word; rewrite B_val; assumption | apply wf1; assumption]. Qed.
-
-(* (-8) div_floor 3: the code returns r = -1, the floor remainder is +1 and n <> q d + r;
-   (-8) div_floor (-3): the code returns r = +2, the floor remainder is -2 *)
-Lemma floor_remainder_refuted :
-  exists n d, wf n /\ wf d /\ seval d <> 0 /\
-    seval (snd (int_checked_div_rem_floor n d)) <> seval n mod seval d /\
-    (match fst (int_checked_div_rem_floor n d) with
-     | Some q => seval n <> seval q * seval d + seval (snd (int_checked_div_rem_floor n d))
-     | None => False end).
-Proof.
-  exists [2 ^ 64 - 8], [3].
-  split; [apply wf1; lia|]. split; [apply wf1; lia|].
-  vm_compute. repeat split; discriminate.
-Qed.
-
-Lemma floor_remainder_refuted_neg_divisor :
-  exists n d, wf n /\ wf d /\ seval d <> 0 /\
-    seval (snd (int_checked_div_rem_floor n d)) <> seval n mod seval d.
-Proof.
-  exists [2 ^ 64 - 8], [2 ^ 64 - 3].
-  split; [apply wf1; lia|]. split; [apply wf1; lia|].
-  vm_compute. repeat split; discriminate.
-Qed.
 
 (* Int<2> (2^64 - 2) rem Uint<1> (2^64 - 1): the remainder does not fit Int<1> and reads back as -2 *)
 Lemma rem_uint_mixed_refuted :
